@@ -152,6 +152,10 @@ def _clone(ps):
     q.blocks = list(ps.blocks)
     q.trace = list(ps.trace)
     q.casevals = {k: set(v) for k, v in ps.casevals.items()}
+    for extra in ("_fork_helpers", "_depth", "stored_params"):
+        if hasattr(ps, extra):
+            v = getattr(ps, extra)
+            setattr(q, extra, set(v) if isinstance(v, set) else v)
     return q
 
 
@@ -421,6 +425,11 @@ def _expand_helper(ps, call, pol):
         ps.calls += list(q.calls)
         ps.events += list(q.events)
         return
+    if len(sel) <= 6 and getattr(ps, "_fork_helpers", False):
+        # several paths of the helper give this truth value: the caller's path is continued once per helper path (the
+        # enumerator forks), so that what the helper did on each of them - the error it queued - stays attributable
+        ps._variants = getattr(ps, "_variants", []) + [sel]
+        return
     common = None
     for q in sel:
         cur = {(a.src, p_ if not isinstance(p_, tuple) else str(p_)): (a, p_) for a, p_ in q.facts}
@@ -434,8 +443,9 @@ class TooManyPaths(Exception):
     pass
 
 
-def summarize(fn, max_visits=2, limit=20000, params=None):
-    """all entry->exit path summaries of fn. `params`: {name: const} to specialise a call."""
+def summarize(fn, max_visits=2, limit=20000, params=None, fork_helpers=False):
+    """all entry->exit path summaries of fn. `params`: {name: const} to specialise a call.  fork_helpers: a decision on the
+    result of a small static helper that has several paths with that result continues once per helper path."""
     out = []
     count = [0]
     # locals assigned inside each loop: widened to unknown when the head is re-entered
@@ -526,10 +536,29 @@ def summarize(fn, max_visits=2, limit=20000, params=None):
                         else:
                             q.env[name] = UNKNOWN
             visits[s.id] = visits.get(s.id, 0) + 1
-            rec(s, q, visits)
+            variants = getattr(q, "_variants", None)
+            if variants:
+                q._variants = []
+                qs = [q]
+                for sel in variants:
+                    nxt = []
+                    for x in qs:
+                        for hv in sel:
+                            y = _clone(x)
+                            y._variants = []
+                            y.facts += list(hv.facts)
+                            y.calls += list(hv.calls)
+                            y.events += list(hv.events)
+                            nxt.append(y)
+                    qs = nxt[:64]
+                for y in qs:
+                    rec(s, y, dict(visits))
+            else:
+                rec(s, q, visits)
             visits[s.id] -= 1
 
     ps0 = PathSummary()
+    ps0._fork_helpers = fork_helpers
     if params:
         for k, v in params.items():
             ps0.env[k] = AVal("const", v)
